@@ -802,6 +802,52 @@ fn signature(p: &Program) -> Sig {
     sig
 }
 
+/// (start, end) byte extents of every `cond => consequence` branch outside holes: from the first
+/// character of the condition to the end of the last consequence step.
+fn arrow_branches(p: &Program) -> Vec<(usize, usize)> {
+    fn chain(c: &Chain, out: &mut Vec<(usize, usize)>) {
+        c.terms.iter().for_each(|t| term(t, out));
+    }
+    fn expr(e: &Expression, out: &mut Vec<(usize, usize)>) {
+        for b in &e.branches {
+            if let Some(k) = &b.consequence {
+                let start = b.condition.chains.first().and_then(|c| c.span.get()).map(|s| s.offset);
+                let end = k.chains.last().and_then(|c| c.span.get()).map(|s| s.offset + s.length);
+                if let (Some(a), Some(z)) = (start, end) {
+                    out.push((a, z));
+                }
+                k.chains.iter().for_each(|c| chain(c, out));
+            }
+            b.condition.chains.iter().for_each(|c| chain(c, out));
+        }
+    }
+    fn term(t: &Term, out: &mut Vec<(usize, usize)>) {
+        match t {
+            Term::Tuple(t) => t.fields.iter().for_each(|f| {
+                if let FieldValue::Chain(c) = &f.value {
+                    chain(c, out)
+                }
+            }),
+            Term::Block(e) => expr(e, out),
+            Term::Function(f) => {
+                if let Some(b) = &f.body {
+                    expr(b, out)
+                }
+            }
+            Term::Spawn(inner, _) => term(inner, out),
+            Term::Select(Some(cs), _) => cs.iter().for_each(|c| chain(c, out)),
+            _ => {}
+        }
+    }
+    let mut out = vec![];
+    for s in &p.statements {
+        if let Statement::Expression(seq) = s {
+            seq.chains.iter().for_each(|c| chain(c, &mut out));
+        }
+    }
+    out
+}
+
 /// Offsets of the binding patterns (`pat = chain`), for the "comment inside a pattern" signature.
 fn bind_spans(p: &Program) -> Vec<(usize, usize)> {
     fn chain(c: &Chain, out: &mut Vec<(usize, usize)>) {
@@ -996,6 +1042,14 @@ fn e2e(src: &str, with_out: bool) -> String {
     }
     if comment_in_pattern {
         sigs.push("comment-in-pattern");
+    }
+    {
+        // F38: a comment inside a `cond => consequence` branch (or trailing it on the line where it ends)
+        let arrows = arrow_branches(&ast_for_sig);
+        let line_end = |z: usize| src[z.min(src.len())..].find('\n').map_or(src.len(), |k| z + k);
+        if c_offsets.iter().any(|o| arrows.iter().any(|(a, z)| a <= o && *o <= line_end(*z))) {
+            sigs.push("comment-in-arrow-branch");
+        }
     }
     {
         // F44 (mechanism seen in the OUTPUT): a deferred trailing comment was flushed onto a line whose
